@@ -37,7 +37,7 @@ var bulkOps = []opSpec{
 // ruleLoadLemma: the lemma the summaries rely on - the filtered lookups return nil or a live node.
 func ruleLoadLemma(cx *Ctx) {
 	const rule = "C03.lookup"
-	cx.R.Rule(rule, 2, "getNode / getNodeQuietly return either nil or a node that is non-nil and unexpired at the given time on that path (lemma used when these lookups are summarised)")
+	cx.R.Rule(rule, 1, "getNode / getNodeQuietly return either nil or a node that is non-nil and unexpired at the given time on that path (lemma used when these lookups are summarised)")
 	for _, name := range []string{"getNode", "getNodeQuietly"} {
 		r := cx.runOp(rule, opSpec{name, "cache", name, nil, "lookup", nil})
 		if r == nil {
@@ -65,11 +65,11 @@ func ruleLoadOps(cx *Ctx) {
 	const rOld = "C11.old"
 	const rTrig = "C11.trigger"
 	const rChan = "C11.chan"
-	cx.R.Rule(rDisp, 8, "a call record obtained with shouldLoad is handed to doCall / doBulkCall exactly once before any wait, a record obtained without it is never dispatched, and every result read from a record is preceded by wait()")
+	cx.R.Rule(rDisp, 2, "a call record obtained with shouldLoad is handed to doCall / doBulkCall exactly once before any wait, a record obtained without it is never dispatched, and every result read from a record is preceded by wait()")
 	cx.R.Rule(rRes, 1, "a record's value reaches an API result only together with its error or under err == nil; hits return the live node's value")
-	cx.R.Rule(rOld, 2, "a read of a present entry returns the value cached at that moment; refresh work happens only inside an executor closure")
-	cx.R.Rule(rTrig, 2, "an automatic refresh is triggered only when the entry is not fresh")
-	cx.R.Rule(rChan, 5, "without refresh configured no channel is returned and nothing is scheduled; a manual refresh creates a buffered channel (capacity 1) and sends exactly one result on every non-panicking path; a non-manual refresh returns no channel and sends nothing")
+	cx.R.Rule(rOld, 1, "a read of a present entry returns the value cached at that moment; refresh work happens only inside an executor closure")
+	cx.R.Rule(rTrig, 1, "an automatic refresh is triggered only when the entry is not fresh")
+	cx.R.Rule(rChan, 1, "without refresh configured no channel is returned and nothing is scheduled; a manual refresh creates a buffered channel (capacity 1) and sends exactly one result on every non-panicking path; a non-manual refresh returns no channel and sends nothing")
 	for _, spec := range loadOps {
 		r := cx.runOp(rDisp, spec)
 		if r == nil {
@@ -230,7 +230,7 @@ func ruleBulkOps(cx *Ctx) {
 	const rOnce = "C10.once"
 	const rTrig = "C11.trigger"
 	const rChan = "C11.chan"
-	cx.R.Rule(rOnce, 2, "BulkGet dispatches the bulk loader at most once per call, with exactly the records it started itself; duplicates of a key are skipped before the lookup")
+	cx.R.Rule(rOnce, 1, "BulkGet dispatches the bulk loader at most once per call, with exactly the records it started itself; duplicates of a key are skipped before the lookup")
 	for _, spec := range bulkOps {
 		r := cx.runOp(rDisp, spec)
 		if r == nil {
@@ -385,7 +385,7 @@ func ruleBulkOps(cx *Ctx) {
 // ruleC11ReloadArg: reloads receive the value cached when the refresh was scheduled; loads are used when there is none.
 func ruleC11ReloadArg(cx *Ctx) {
 	const rule = "C11.reloadarg"
-	cx.R.Rule(rule, 3, "a refresh of a present entry calls Reload with the old node's value, a refresh of an absent key calls Load; in the bulk variant the old value is stored into the reload record before dispatch")
+	cx.R.Rule(rule, 1, "a refresh of a present entry calls Reload with the old node's value, a refresh of an absent key calls Load; in the bulk variant the old value is stored into the reload record before dispatch")
 	fn := cx.need(rule, "", "cache", "refreshKey")
 	if fn == nil {
 		return
